@@ -38,3 +38,6 @@ func Fingerprint(der []byte, alg string) (string, string) {
 
 // B64Decode decodes standard base64.
 func B64Decode(s string) ([]byte, error) { return base64.StdEncoding.DecodeString(s) }
+
+// MustURL parses a URL known to be valid.
+func MustURL(s string) url.URL { return mustURL(s) }
